@@ -617,7 +617,35 @@ const NUM_TEXTS: &[&str] = &[
 ];
 
 fn gen_raw_case(p: &mut Prng) -> (Vec<u8>, Vec<&'static str>) {
-    match p.below(4) {
+    match p.below(6) {
+        // a valid stream of scalar values, then one byte changed / removed / inserted, or a cut
+        4 | 5 => {
+            let n = p.range(1, 5);
+            let ops: Vec<WOp> = (0..n)
+                .map(|_| match p.below(5) {
+                    0 | 1 => WOp::U(gen_uint(p) % P60),
+                    2 => WOp::S(gen_string(p, false)),
+                    3 => WOp::B(p.chance(1, 2)),
+                    _ => WOp::O(if p.chance(1, 3) { None } else { Some(gen_string(p, false)) }),
+                })
+                .collect();
+            let mut w = DefaultProtocolWriter::new(Vec::new());
+            real_write(&mut w, &realise(&ops));
+            let mut b = w.writer.clone();
+            if !b.is_empty() {
+                let k = p.below(b.len() as u64) as usize;
+                match p.below(5) {
+                    0 => b[k] = p.below(256) as u8,
+                    1 => {
+                        b.remove(k);
+                    }
+                    2 => b.insert(k, p.below(256) as u8),
+                    3 => b.truncate(k),
+                    _ => {}
+                }
+            }
+            (b, rops_of(&ops))
+        }
         // arbitrary bytes, biased to the type nibbles, scalar reads only
         0 | 1 => {
             let n = p.below(24) as usize;
@@ -1270,6 +1298,7 @@ pub fn run_c05(args: &Args, model: &mut Model) -> Report {
             check_prims(&c, model, &mut rep, "corpus");
         }
     }
+    checkpoint(&rep, args, "c05 primitive corpus");
     if only("fsm") {
         for c in fsm_corpus() {
             check_fsm(&c, true, model, &mut rep, "corpus");
@@ -1285,6 +1314,7 @@ pub fn run_c05(args: &Args, model: &mut Model) -> Report {
     if !only("fsm") {
         nf = 0;
     }
+    checkpoint(&rep, args, "c05 corpus");
     for i in 0..np {
         let mut p = Prng::for_case(args.seed, i);
         let c = gen_prim_case(&mut p);
@@ -1296,6 +1326,9 @@ pub fn run_c05(args: &Args, model: &mut Model) -> Report {
         check_raw_read(&b, &rops, model, &mut rep, &format!("gen raw seed={} index={}", args.seed, i));
     }
     for i in 0..nf {
+        if i % 10 == 0 {
+            checkpoint(&rep, args, &format!("c05 generated model {}", i));
+        }
         let mut p = Prng::for_case(args.seed ^ 0xF5F5, i);
         let behave = i % 2 == 0;
         let big = !behave && i % 10 == 1;
@@ -1305,7 +1338,31 @@ pub fn run_c05(args: &Args, model: &mut Model) -> Report {
     rep
 }
 
+/// A reader that has lost the stream position (a mutation of the length decoding, say) loops over
+/// garbage lengths and allocates without bound; cap the address space so that this ends in an abort of
+/// the harness (no report ⇒ the check is red) instead of exhausting the machine.  Best effort.
+fn limit_memory() {
+    let pid = std::process::id().to_string();
+    let _ = std::process::Command::new("prlimit")
+        .args(["--pid", &pid, "--as=12884901888"])
+        .stdout(std::process::Stdio::null())
+        .stderr(std::process::Stdio::null())
+        .status();
+}
+
+/// Writes what has been found so far, marked as incomplete by a sentinel disagreement.  If the process
+/// dies later (abort on the memory cap), `bin/check` still sees the disagreements found before; if it
+/// completes, `main` overwrites the file with the real report.
+fn checkpoint(rep: &Report, args: &Args, at: &str) {
+    let mut j = rep.to_json();
+    if let Some(a) = j["disagreements"].as_array_mut() {
+        a.push(json!({"what": "harness run did not complete: it died after this checkpoint", "checkpoint": at}));
+    }
+    let _ = std::fs::write(&args.out, serde_json::to_string(&j).unwrap_or_default());
+}
+
 pub fn run(args: &Args, model: &mut Model) -> Report {
+    limit_memory();
     // main() silences the panic hook; a panic of the harness itself must not be lost
     let r = catch_unwind(AssertUnwindSafe(|| if args.family == "c18" { run_c18(args, model) } else { run_c05(args, model) }));
     match r {
@@ -1747,8 +1804,9 @@ pub fn run_c18(args: &Args, model: &mut Model) -> Report {
     check_sink_prims(&[WOp::S("ab".into())], &[(1, Fault::Acc(1))], false, model, &mut rep, "corpus");
     check_sink_prims(&[WOp::S("ab".into()), WOp::U(1)], &[(0, Fault::Err)], false, model, &mut rep, "corpus");
     check_sink_prims(&[WOp::U(300), WOp::B(true)], &[(1, Fault::Acc(0))], false, model, &mut rep, "corpus");
-    let (nf, np) = if args.thorough { (400, 6000) } else { (28, 500) };
+    let (nf, np) = if args.thorough { (150, 6000) } else { (20, 400) };
     for i in 0..nf {
+        checkpoint(&rep, args, &format!("c18 generated model {}", i));
         let mut p = Prng::for_case(args.seed ^ 0xC18, i);
         let c = {
             let (xml, counts) = {
